@@ -374,10 +374,17 @@ func elemGlobalGetOfNonReference(bin []byte) bool {
 	}
 	for i := range w.Sites {
 		s := &w.Sites[i]
-		if s.Kind == kGlobalIndex && s.Fn < 0 && s.InInstr && w.Secs[s.Sec].ID == 9 && s.Val < uint64(len(gtypes)) {
-			// the first global.get of an active segment is its offset (an i32 global is right there); a
-			// non-reference global anywhere else in the segment is an initialiser
-			if t := gtypes[s.Val]; t != 0x70 && t != 0x6f && !isElemOffsetExpr(w, i) {
+		if s.Kind == kGlobalIndex && s.Fn < 0 && s.InInstr && w.Secs[s.Sec].ID == 9 && !isElemOffsetExpr(w, i) {
+			// (the global.get of an active segment's offset expression is not an initialiser)
+			if s.Val >= uint64(len(gtypes)) {
+				// an index the module does not have: if the module is accepted nevertheless, the
+				// initialiser resolved to some other global; any non-reference global will do
+				for _, t := range gtypes {
+					if t != 0x70 && t != 0x6f {
+						return true
+					}
+				}
+			} else if t := gtypes[s.Val]; t != 0x70 && t != 0x6f {
 				return true
 			}
 		}
